@@ -281,9 +281,16 @@ def r3(ctx):
     tagdep = []
     if ok:
         ga = guard_atoms(rcfg, rcfg.node_of(sorts[0].stmt))
-        tagdep = [t for t, p in ga if "self.tag" in t]
+        # the only conditions the sort may depend on: the call has a GT and no allele of it is missing
+        gtx = u(sorts[0].target)
+        gtnames = {gtx} | {nm for nm in [x.id for x in ast.walk(rm.node) if isinstance(x, ast.Name)] if (lambda d_: d_ is not None and u(d_) == gtx)(util.single_def(rm.node, nm))}
+        def about_gt_only(t):
+            if t.startswith("<iter>") or t.startswith("'GT' in "):
+                return True
+            return any(g_ in t for g_ in gtnames) and not any(w_ in t for w_ in ("self.tag", ".phased", "self._"))
+        tagdep = [t for t, p in ga if not about_gt_only(t)]
         ok = not tagdep and u(sorts[0].value.args[0]) == "%s['GT']" % u(sorts[0].target.value)
-    ctx.ob(rm.qual, "gt-sorted-for-both-tags", ok, rm.loc(sorts[0].stmt) if sorts else rm.loc(), "GT is put in ascending order whatever tag is written (the HP items are listed in GT order)" if ok else "GT is only normalised under %s: with --tag HP an input genotype such as 1/0 makes the HP value decode to the opposite phase" % (tagdep or "a missing sort"))
+    ctx.ob(rm.qual, "gt-sorted-for-both-tags", ok, rm.loc(sorts[0].stmt) if sorts else rm.loc(), "GT is put in ascending order whenever it is complete, whatever tag is written and whether or not the input call was phased (the HP items are listed in GT order)" if ok else "GT is only normalised under %s: with --tag HP an input genotype such as 1/0 makes the HP value decode to the opposite phase" % (tagdep or "a missing sort"))
     # in write(), the setter is called after the removal on the same record
     w = ctx.func(W + ".write")
     cfg = ctx.cfg(w)
@@ -389,6 +396,33 @@ def r4(ctx):
                     if isinstance(t, ast.Name) and t.id not in shared and not (isinstance(src, ast.Call) and u(src.func) == "enumerate" and isinstance(tgt, ast.Tuple) and t is tgt.elts[0]):
                         shared.add(t.id)
                         changed = True
+    # the blocks of sample X become pseudo reads labelled with X's numeric id
+    pcs = [c for c in ctx.prog.calls_in(rd.node) if isinstance(c.func, ast.Attribute) and c.func.attr == "phased_blocks_as_reads"]
+    ctx.require(len(pcs) >= 1, "PhasedInputReader.read no longer calls phased_blocks_as_reads")
+    fparams = util.params_of(fi.node)[1:]
+    for c in pcs:
+        amap = dict(zip(fparams, c.args))
+        amap.update({k.arg: k.value for k in c.keywords if k.arg})
+        sm, nid = amap.get("sample"), amap.get("numeric_sample_id")
+        ok = None
+        why = "cannot relate the sample and the numeric sample id passed to phased_blocks_as_reads"
+        if sm is not None and nid is not None:
+            nd = nid
+            if isinstance(nd, ast.Name):
+                d_ = util.single_def(rd.node, nd.id)
+                nd = d_ if d_ is not None else nd
+            sx = sm
+            if isinstance(sx, ast.Name) and sx.id not in util.params_of(rd.node):
+                d_ = util.single_def(rd.node, sx.id)
+                sx = d_ if d_ is not None else sx
+            if isinstance(nd, ast.Subscript) and u(nd.value) == "self._numeric_sample_ids":
+                key = nd.slice
+                if isinstance(key, ast.Name) and key.id not in util.params_of(rd.node):
+                    d_ = util.single_def(rd.node, key.id)
+                    key = d_ if d_ is not None else key
+                ok = u(key) == u(sx)
+                why = "the phase sets of `%s` are read and labelled with that sample's numeric id" % u(sx) if ok else "the phase sets of `%s` are turned into reads labelled as sample `%s`: another individual's phase (or none) is fed to the sample being phased" % (u(sx), u(key))
+        ctx.ob(rd.qual, "pseudo-reads-of-the-sample-being-read", ok, rd.loc(c), why)
     bad = []
     for st in util.store_sites(rd.node):
         root = util.root_name(st.target)
